@@ -20,7 +20,7 @@ from typing import (
     TypeVar,
 )
 from xml.etree import ElementTree as ET
-from xml.sax.saxutils import escape
+from xml.sax.saxutils import escape, quoteattr
 
 import defusedxml.ElementTree as DET
 import voluptuous as vol
@@ -693,7 +693,7 @@ class UpnpAction:
             f'<s:Envelope s:encodingStyle="http://schemas.xmlsoap.org/soap/encoding/"'
             f' xmlns:s="http://schemas.xmlsoap.org/soap/envelope/">'
             f"<s:Body>"
-            f'<u:{self.name} xmlns:u="{service_type}">'
+            f"<u:{self.name} xmlns:u={quoteattr(service_type)}>"
             f"{soap_args}"
             f"</u:{self.name}>"
             f"</s:Body>"
